@@ -456,6 +456,22 @@ fn select_n_nodes(
         dc_count -= 1;
     }
 
+    // The pass above can come up short although enough live nodes exist (e.g. a cycler wrapping
+    // around onto the local node), so any remaining node is used to make up the difference.
+    if selected_nodes.len() < n {
+        for dc_nodes in data_centers.values() {
+            for node in dc_nodes.get_nodes() {
+                if selected_nodes.len() >= n {
+                    break;
+                }
+
+                if *node != local_node && !selected_nodes.contains(node) {
+                    selected_nodes.push(*node);
+                }
+            }
+        }
+    }
+
     if selected_nodes.len() >= n {
         debug!(selected_node = ?selected_nodes, "Nodes have been selected for the given parameters.");
         Ok(selected_nodes)
